@@ -148,11 +148,14 @@ class Quantity:
     def __eq__(self, other):
         if isinstance(other, (int, float)):
             other = Quantity(other)
-        if np.all(other.magnitude.value!=0):
-            other.to(self.units())
-        if not np.allclose(self.magnitude.value, other.magnitude.value, rtol=MAGNITUDE_PRECISION):
+        magnitude, baseunits = other.magnitude, other.baseunits
+        if np.all(magnitude.value!=0):
+            # compare a converted copy; the operand itself must not change
+            baseunits = BaseUnits(self.units())
+            magnitude = self._convert(magnitude, other.baseunits, baseunits)
+        if not np.allclose(self.magnitude.value, magnitude.value, rtol=MAGNITUDE_PRECISION):
             return False
-        if not self.baseunits==other.baseunits:
+        if not self.baseunits==baseunits:
             return False
         return True
     
